@@ -969,8 +969,11 @@ class Interp:
         if op == "%" and isinstance(a, str):
             return FStr([a, b])
         if isinstance(a, SArr) or isinstance(b, SArr):
-            self._same_shape(a, b)
-            if inplace and isinstance(a, SArr):
+            a0 = a
+            a, b = self._same_shape(a, b)
+            if inplace and isinstance(a0, SArr):
+                if a is not a0:
+                    raise PyRaise(ValueError("non-broadcastable output operand"))
                 new = SArr.elementwise(op, a.copy(), b)
                 self.models.arr_write_all(self, a, new)
                 return a
@@ -985,16 +988,21 @@ class Interp:
         return binop(op, a, b)
 
     def _same_shape(self, a, b):
+        """numpy shape compatibility of two arrays of equal rank; returns the operands, an extent-1 axis being
+        replaced by a broadcast view.  Raises ValueError like numpy when the extents are incompatible."""
         if isinstance(a, SArr) and isinstance(b, SArr):
             if a.ndim != b.ndim:
                 raise OutsideSubset("broadcast between different ranks")
-            for x, y in zip(a.shape, b.shape):
+            for ax, (x, y) in enumerate(zip(a.shape, b.shape)):
                 tx, ty = (z3.IntVal(x) if isinstance(x, int) else x), (z3.IntVal(y) if isinstance(y, int) else y)
                 if not self.ctx.branch(tx == ty):
-                    # numpy broadcasting of extents 1 is not modelled
-                    if self.ctx.branch(z3.Or(tx == 1, ty == 1)):
-                        raise OutsideSubset("numpy broadcasting of extent 1")
-                    raise PyRaise(ValueError("operands could not be broadcast together"))
+                    if self.ctx.branch(tx == 1):
+                        a = _broadcast_axis(a, ax, y)
+                    elif self.ctx.branch(ty == 1):
+                        b = _broadcast_axis(b, ax, x)
+                    else:
+                        raise PyRaise(ValueError("operands could not be broadcast together"))
+        return a, b
 
     def ex_Compare(self, node, frame):
         left = self.eval(node.left, frame)
@@ -1031,8 +1039,8 @@ class Interp:
             r = self.models.seq_equal(self, a, b)
             return r if sym == "==" else ((not r) if isinstance(r, bool) else wrap(z3.Not(to_z3(r))))
         if isinstance(a, SArr) or isinstance(b, SArr):
-            self._same_shape(self.models.as_array(self, a), self.models.as_array(self, b))
-            return SArr.elementwise(sym, self.models.as_array(self, a), self.models.as_array(self, b))
+            a, b = self._same_shape(self.models.as_array(self, a), self.models.as_array(self, b))
+            return SArr.elementwise(sym, a, b)
         if isinstance(a, (Obj, Opaque)) or isinstance(b, (Obj, Opaque)):
             if sym == "==":
                 return a is b
@@ -1241,6 +1249,13 @@ class Interp:
             setattr(obj, name, v)
         except Exception as exc:  # noqa: BLE001
             raise PyRaise(exc) from None
+
+
+def _broadcast_axis(arr, ax, extent):
+    """View of `arr` (extent 1 along `ax`) repeated `extent` times along that axis."""
+    shape = list(arr.shape)
+    shape[ax] = extent
+    return SArr(shape, None, arr.dtype, base=arr, to_base=lambda idx, ax=ax: tuple(z3.IntVal(0) if k == ax else i for k, i in enumerate(idx)))
 
 
 _GLOBAL_IDS = None
